@@ -747,11 +747,18 @@ func drive(p *Prop, tier string) int {
 	}
 	known := map[string]int64{}
 	knownWhat := map[string]string{}
+	knownEx = map[string][]map[string]any{}
 	var fresh []*VRec
 	for _, v := range agg.Violations {
 		if e := led.Match(p.ID, v.Sig); e != nil {
 			known[e.ID] += v.Count
 			knownWhat[e.ID] = e.What
+			if len(knownEx[e.ID]) < 3 {
+				knownEx[e.ID] = append(knownEx[e.ID], map[string]any{"sig": v.Sig, "cases": v.Count, "case": trunc(v.Desc, 300), "detail": trunc(strings.ReplaceAll(v.Detail, "\n", " | "), 600)})
+			}
+			if os.Getenv("VERIF_DUMP") != "" {
+				fmt.Printf("KNOWNSIG %s\t%s\t%d\t%s\t%s\n", e.ID, v.Sig, v.Count, trunc(v.Desc, 300), trunc(strings.ReplaceAll(v.Detail, "\n", " | "), 600))
+			}
 			continue
 		}
 		fresh = append(fresh, v)
@@ -813,6 +820,9 @@ func jsonOrString(s string) []byte {
 	return b
 }
 
+// knownEx holds up to three examples per ledgered finding hit by this run (for the evidence file).
+var knownEx map[string][]map[string]any
+
 func writeEvidence(p *Prop, a *Agg, tier string, wall float64, nviol int, known map[string]int64, merrs []string) {
 	cov := map[string]any{
 		"evaluations":         a.Evals,
@@ -864,6 +874,9 @@ func writeEvidence(p *Prop, a *Agg, tier string, wall float64, nviol int, known 
 		kf[k] = v
 	}
 	cov["known_findings_hit"] = kf
+	if len(knownEx) > 0 {
+		cov["known_finding_examples"] = knownEx
+	}
 	if len(merrs) > 0 {
 		cov["machinery_errors"] = merrs
 	}
